@@ -80,6 +80,9 @@ def unit_cases(chk, rng, n):
         if r < 0.55:
             href = ROOT + "/" + rng.choice(URLS)
             pre, post, has = "<a href='", f"'>{rng.choice(['name', 'a/b', 'x'])}</a>", True
+        elif r < 0.62:     # a first link that is no path at all: left as written
+            href = rng.choice(["#variable-side", "#text", "mailto:someone@example.org", "notes.html"])
+            pre, post, has = "<p>see <a href='", "'>side</a> zq/w</p>", True
         elif r < 0.7:
             href = rng.choice(["http://example.org/x/y.html", "https://e.org/doc/proc/p.html"])
             pre, post, has = "<a href='", "'>ext</a>", True
